@@ -14,6 +14,7 @@ import (
 	"github.com/vx-labs/wasp/v4/wasp/api"
 	"github.com/vx-labs/wasp/v4/wasp/audit"
 	"github.com/vx-labs/wasp/v4/wasp/distributed"
+	"verifharness/internal/ref"
 )
 
 // Node is one replica.
@@ -21,6 +22,7 @@ type Node struct {
 	ID    uint64
 	State distributed.State
 	Q     *memberlist.TransmitLimitedQueue
+	looks int
 }
 
 // NewNode builds a replica the way cmd/wasp does (NewState with a TransmitLimitedQueue);
@@ -45,7 +47,25 @@ func (n *Node) Drain() [][]byte {
 }
 
 // Deliver hands one gossip message to the node through the real delegate.
-func (n *Node) Deliver(msg []byte) { n.State.Distributor().NotifyMsg(msg) }
+func (n *Node) Deliver(msg []byte) {
+	n.Look()
+	n.State.Distributor().NotifyMsg(msg)
+}
+
+// LookTopics are looked up (as a publish arriving at that moment would) before every delivery and
+// every local operation (one of the first four in turn; all of them when a view is taken): reading must not change what any later read answers. They include empty
+// levels at the end, at the start and in the middle.
+var LookTopics = []string{"mp/a/", "mp/", "mp/a/b", "mp//b", "mp/a", "mp/b", "mp/a/b/c", "mp/mp/a", "mp/c"}
+
+// Look performs the reads; the answers are discarded here (ViewOf compares the final ones).
+func (n *Node) Look() {
+	n.looks++
+	if n.looks%5 == 0 {
+		n.State.Topics().Get([]byte("mp/a/+"))
+		return
+	}
+	n.State.Subscriptions().ByPattern([]byte(LookTopics[n.looks%5-1]))
+}
 
 // Snapshot / MergeSnapshot are the full-state exchange.
 func (n *Node) Snapshot() []byte       { return n.State.Distributor().LocalState(false) }
@@ -114,6 +134,26 @@ func ViewOf(n *Node) View {
 	for _, s := range n.State.Subscriptions().All() {
 		s := s
 		v.Subscriptions = append(v.Subscriptions, SubscriptionString(&s))
+	}
+	// what a publish would be routed to must be what the listing says, under an independent matcher
+	all := n.State.Subscriptions().All()
+	for _, tp := range LookTopics {
+		var want, got []string
+		for _, s := range all {
+			s := s
+			if ref.MatchS(string(s.Pattern), tp) {
+				want = append(want, SubscriptionString(&s))
+			}
+		}
+		for _, s := range n.State.Subscriptions().ByPattern([]byte(tp)) {
+			s := s
+			got = append(got, SubscriptionString(&s))
+		}
+		sort.Strings(want)
+		sort.Strings(got)
+		if fmt.Sprint(want) != fmt.Sprint(got) {
+			v.Subscriptions = append(v.Subscriptions, fmt.Sprintf("INCONSISTENT: topic %q is routed to %q, the listed subscriptions that match it are %q", tp, got, want))
+		}
 	}
 	msgs, err := n.State.Topics().Get([]byte("#"))
 	if err != nil {
